@@ -2,7 +2,7 @@ SPECIFICATION Spec
 CONSTANTS
   Chunks = 2
   MaxVer = 4
-  Deviation = "ignore_write_error"
+  Deviation = "no_trunc"
 INVARIANTS Inv_FileIsCompleteSnapshot
 PROPERTIES Act_ReloadEqualsLastSave
 CHECK_DEADLOCK FALSE
